@@ -12,6 +12,7 @@ Trees: exhaustive over all 13 shapes of depth <= 2 x all labellings by the ten o
 sampled random trees of depth 3..4 beyond; terminal arrays with signs, zeros, tiny, large and
 eps-cancelling entries in several (n_variables, n_dimensions).
 """
+import copy
 import itertools
 import numpy as np
 from harness import hlib
@@ -190,6 +191,126 @@ def oracle(spec, terms, shape):
     return msg, samples
 
 
+# ------------------------------------------------------------------ evaluate -> edit -> evaluate again
+
+def graph_reference(n):
+    """Bottom-up value of the object graph as it is NOW (independent of anything Node.position may remember)."""
+    if n.type == 'TERMINAL':
+        return n.value
+    x = graph_reference(n.left)
+    y = graph_reference(n.right) if n.right is not None else None
+    return REF[n.name](x, y)
+
+
+def check_graph(root, shape):
+    """Per-node oracle on an existing object graph, parents read before children (a remembered value shows first
+    at the ancestors of an edit)."""
+    for n in all_nodes(root):
+        try:
+            p = n.position
+        except Exception as ex:  # noqa: BLE001
+            return '%s node raised %s: %s' % (n.name, type(ex).__name__, ex)
+        want = graph_reference(n)
+        if not isinstance(p, np.ndarray) or p.shape != shape or not same_bits(p, want):
+            return '%r node: position %s is not the value of the current tree %s' % (
+                n.name, np.asarray(p).tolist() if isinstance(p, np.ndarray) else type(p).__name__, np.asarray(want).tolist())
+        if n.type == 'FUNCTION':
+            xs = n.left.position
+            ys = n.right.position if n.right is not None else None
+            if not same_bits(p, REF[n.name](xs, ys)):
+                return '%r node: position differs from the documented operator on its children\'s current values' % (n.name,)
+    return None
+
+
+def node_at(root, path):
+    n = root
+    for step in path:
+        n = n.left if step == 'L' else n.right
+    return n
+
+
+def paths(spec, prefix=()):
+    """[(path, sub-spec)] of every node."""
+    out = [(list(prefix), spec)]
+    if spec[0] != 'T':
+        out += paths(spec[2], prefix + ('L',))
+        if len(spec) > 3:
+            out += paths(spec[3], prefix + ('R',))
+    return out
+
+
+def run_edit(case):
+    """One scenario: evaluate every node, edit the tree through the public interface, evaluate again.
+    kind 'replace' : a sub-tree at depth >= 2 is replaced through the parent's left/right setter (GP mutation/crossover);
+    kind 'inplace' : a terminal's array is rewritten in place, t.value[:] = ... (TreeSpace._initialize_terminals);
+    on_copy        : the edit is made on a copy.deepcopy of the tree; the tree that is not edited must keep its value."""
+    shape = tuple(case['shape'])
+    terms = dec_terms(case['terms'])
+    root = build(case['spec'], terms)
+    for n in all_nodes(root) + list(reversed(all_nodes(root))):
+        _ = n.position
+    old = np.array(root.position, copy=True)
+    other = copy.deepcopy(root)
+    target, untouched = (other, root) if case['on_copy'] else (root, other)
+    path = case['path']
+    if case['kind'] == 'replace':
+        new = build(case['new_spec'], dec_terms(case['new_terms']))
+        parent = node_at(target, path[:-1])
+        if path[-1] == 'L':
+            parent.left = new
+        else:
+            parent.right = new
+            new.flag = False
+        new.parent = parent
+    else:
+        t = node_at(target, path)
+        t.value[:] = np.array([[unkey(k) for k in row] for row in case['new_values']], dtype=float)
+    msg = check_graph(target, shape)
+    if msg:
+        return 'stale-after-edit (%s%s at %s): %s' % (case['kind'], ' on a deepcopy' if case['on_copy'] else '', '/'.join(path), msg)
+    try:
+        now = untouched.position
+    except Exception as ex:  # noqa: BLE001
+        return 'stale-after-edit: the tree that was not edited raised %s' % type(ex).__name__
+    if not same_bits(now, old) or check_graph(untouched, shape):
+        return 'stale-after-edit (%s): the tree that was NOT edited (%s) changed its value' % (
+            case['kind'], 'original' if case['on_copy'] else 'deepcopy taken before the edit')
+    return None
+
+
+def edit_cases(r, n_terms):
+    out = []
+    n = 20 if hlib.QUICK else 500
+    tries = 0
+    while len(out) < 3 * n and tries < 40 * n:
+        tries += 1
+        spec = random_spec(r, r.choice([2, 3, 3, 4]), n_terms, p_leaf=0.1)
+        if spec_depth(spec) < 2:
+            continue
+        shape = r.choice(DIMS)
+        terms = terminal_sets(r, shape, n_terms, 'moderate')
+        kind = ['replace', 'inplace', r.choice(['replace', 'inplace'])][len(out) % 3]
+        on_copy = len(out) % 3 == 2
+        ps = paths(spec)
+        if kind == 'replace':
+            cand = [p for p, s in ps if len(p) >= 2]
+            if not cand:
+                continue
+            path = r.choice(cand)
+            case = {'kind': kind, 'on_copy': on_copy, 'path': path, 'new_spec': random_spec(r, 1, n_terms),
+                    'new_terms': enc_terms(terminal_sets(r, shape, n_terms, 'moderate'))}
+        else:
+            cand = [p for p, s in ps if s[0] == 'T' and len(p) >= 2]
+            if not cand:
+                continue
+            path = r.choice(cand)
+            case = {'kind': kind, 'on_copy': on_copy, 'path': path,
+                    'new_values': enc_terms(terminal_sets(r, shape, 1, 'moderate'))[0]}
+        case.update({'spec': spec, 'shape': list(shape), 'terms': enc_terms(terms)})
+        out.append(case)
+    return out
+
+
 # ------------------------------------------------------------------ terminal arrays
 
 def terminal_sets(r, shape, n_terms, mode):
@@ -252,6 +373,7 @@ def main():
         for mi, mode in enumerate(modes):
             shape = DIMS[(res['cases'] + mi) % len(DIMS)]
             terms = terminal_sets(r, shape, n_terms, mode)
+            enc_before = enc_terms(terms)      # recorded before evaluating: an in-place mutant rewrites `terms`
             msg, samples = oracle(sp, terms, shape)
             res['cases'] += 1
             res['nodes'] += len(samples)
@@ -261,7 +383,7 @@ def main():
             if msg:
                 res['n_failing_cases'] = res.get('n_failing_cases', 0) + 1
             if msg and len(res['fails']) < 4 and ('node:%s' % name) not in [f['key'] for f in res['fails']]:
-                res['fails'].append({'key': 'node:%s' % name, 'msg': msg, 'spec': sp, 'shape': list(shape), 'terms': enc_terms(terms)})
+                res['fails'].append({'key': 'node:%s' % name, 'msg': msg, 'spec': sp, 'shape': list(shape), 'terms': enc_before})
             for (name, xs, ys, p) in samples:
                 idx = (r.randrange(shape[0]), r.randrange(shape[1]))
                 x = float(xs[idx])
@@ -269,6 +391,18 @@ def main():
                 f = float(p[idx])
                 if coq_eligible(name, x, y, f):
                     pool.append((name, x, y, f))
+    # evaluate -> edit -> evaluate again
+    res['edit_cases'] = 0
+    for case in edit_cases(r, n_terms):
+        msg = run_edit(case)
+        res['edit_cases'] += 1
+        k = 'edit/%s%s' % (case['kind'], '/copy' if case['on_copy'] else '')
+        res['dist'][k] = res['dist'].get(k, 0) + 1
+        if msg:
+            res['n_failing_cases'] = res.get('n_failing_cases', 0) + 1
+            if 'node:stale-after-edit' not in [f['key'] for f in res['fails']]:
+                res['fails'].append({'key': 'node:stale-after-edit', 'msg': msg, 'spec': case['spec'], 'shape': case['shape'],
+                                     'terms': case['terms'], 'edit': case})
     # moderate-magnitude scalar cases so that every operator is represented in the Coq sample
     for name in UNARY + BINARY:
         for _ in range(6 if hlib.QUICK else 60):
